@@ -384,7 +384,8 @@ def obligations(tier):
     obs.append(make_posterior_after_replacement((2, 1)))
     if tier == "thorough":
         for flags in combos:
-            obs.append(make_posterior(flags, (2, 2), 4, ess_trim="3/4"))
+            # (trim + resample on 4 rows exhausts the budget: 3 rows in 1+2 batches there)
+            obs.append(make_posterior(flags, (1, 2) if (flags[0] and flags[1]) else (2, 2), 4, ess_trim="3/4"))
         obs.append(make_posterior((True, True, True, True), (1, 1, 2), 3))
         obs.append(make_termination((1, 2, 1), (Fraction(0), Fraction(1), Fraction(1))))
         obs.append(make_evidence((1, 2, 1), (Fraction(0), Fraction(1), Fraction(1))))
